@@ -1,3 +1,292 @@
-From Coq Require Import List Arith ZArith Bool Lia.
-From PV Require Import lib.Cases lib.Conn C12_Model C12_Proofs.
+(* C12 -- PSF photometry keeps its bookkeeping straight.
+   Property theorems only; each is closed by [exact] of a lemma of C12_Proofs / C12_ProofsB.
+
+   Vocabulary.  Real quantities are integers scaled by [sc].  A source is
+   [mkSrc id group_id x y flux_init local_bkg].  [photometry ... fitter srcs] is the model of
+   PSFPhotometry.__call__ after _prepare_init_params; [fitter k ci] is the (unmodelled,
+   arbitrary) answer of the k-th fitter call given the compound model / pixel lists [ci].
+   [group_of srcs s] = the sources sharing s's group id, in input order (a plain [filter]).
+   [own_row srcs calls key s row] (C12_ProofsB) says in table words that [row] describes
+   source [s]: its init columns, group size, the fitted parameters / covariance slice /
+   fit_info returned for the sub-model NAMED s in the call made for s's group, s's own
+   npixfit, centre index, residual slice, flags.  None of these specifications mentions the
+   stable sort, the runs, argsort or the inverse permutation used by the code. *)
+From Coq Require Import List Arith ZArith Bool Relations Sorted Permutation.
+From PV Require Import lib.Cases lib.Conn C12_Model C12_Proofs C12_ProofsB.
 Import ListNotations.
+Open Scope Z_scope.
+
+(* ---- SourceGrouper: group ids = connected components of the graph dist <= min_separation
+        (single linkage), numbered from 1 in order of first appearance ---- *)
+Theorem grouper_is_single_linkage : forall (pos : list (Z * Z)) (t : Z),
+  exists l, group_sources pos t = Some l /\ length l = gn pos /\
+    (forall i j, (i < gn pos)%nat -> (j < gn pos)%nat ->
+       (nth i l 0%nat = nth j l 0%nat <-> linked pos t i j)) /\
+    (forall i, (i < gn pos)%nat -> (1 <= nth i l 0 <= S (pmax (firstn i l)))%nat).
+Proof. exact group_sources_spec. Qed.
+Print Assumptions grouper_is_single_linkage.
+
+(* ---- the un-grouping permutation: for EVERY assignment of group ids (interleaved, any
+        sizes) and every fitter, output row i describes the source whose id is i+1 ---- *)
+Theorem ungroup_restores_id_order :
+  forall ny nx fy fx sc msk data errbad xyb fixed nextra fitter (srcs : list src) (r : result),
+  Permutation (map s_id srcs) (default_ids (length srcs)) ->
+  photometry ny nx fy fx sc msk data errbad xyb fixed nextra fitter srcs = r -> res_err r = None ->
+  let key := match res_calls r with c :: _ => key_of (fitter 0%nat c) | [] => KNone end in
+  map s_id (sort_by s_id srcs) = default_ids (length srcs) /\
+  Forall2 (own_row ny nx fy fx sc msk xyb fixed nextra fitter srcs (res_calls r) key)
+          (sort_by s_id srcs) (res_rows r).
+Proof. exact photometry_own_rows. Qed.
+Print Assumptions ungroup_restores_id_order.
+
+(* the same with the row given as a closed term ([spec_row]: every column of the row as a
+   function of the source alone) *)
+Theorem rows_equal_per_source_specification :
+  forall ny nx fy fx sc msk data errbad xyb fixed nextra fitter (srcs : list src) (r : result),
+  Permutation (map s_id srcs) (default_ids (length srcs)) ->
+  photometry ny nx fy fx sc msk data errbad xyb fixed nextra fitter srcs = r -> res_err r = None ->
+  let key := match res_calls r with c :: _ => key_of (fitter 0%nat c) | [] => KNone end in
+  map s_id (sort_by s_id srcs) = default_ids (length srcs) /\
+  Forall2 (row_ok ny nx fy fx sc msk data errbad xyb fixed nextra fitter srcs (res_calls r) key)
+          (sort_by s_id srcs) (res_rows r).
+Proof. exact photometry_rows. Qed.
+Print Assumptions rows_equal_per_source_specification.
+
+(* ---- ids 1..N, one row per source, input order when the ids are the default ones ---- *)
+Theorem ids_are_1_to_N :
+  forall ny nx fy fx sc msk data errbad xyb fixed nextra fitter (srcs : list src) (r : result),
+  Permutation (map s_id srcs) (default_ids (length srcs)) ->
+  photometry ny nx fy fx sc msk data errbad xyb fixed nextra fitter srcs = r -> res_err r = None ->
+  length (res_rows r) = length srcs /\
+  map (fun row => s_id (o_src row)) (res_rows r) = default_ids (length srcs) /\
+  Permutation (map o_src (res_rows r)) srcs /\
+  (map s_id srcs = default_ids (length srcs) -> map o_src (res_rows r) = srcs).
+Proof. exact photometry_ids. Qed.
+Print Assumptions ids_are_1_to_N.
+
+(* ---- one fitter call per distinct group id, in increasing group-id order; a call is given
+        exactly the members of the group in input order ---- *)
+Theorem one_fit_per_group_in_group_id_order :
+  forall ny nx fy fx sc msk data errbad xyb fixed nextra fitter (srcs : list src) (r : result),
+  photometry ny nx fy fx sc msk data errbad xyb fixed nextra fitter srcs = r -> res_err r = None ->
+  exists gs,
+    StronglySorted Z.lt (map (hk s_gid) gs) /\
+    (forall g, In g gs -> g <> [] /\ g = filter (fun s => s_gid s =? hk s_gid g) srcs) /\
+    (forall s, In s srcs -> In (group_of srcs s) gs) /\
+    Forall2 (fun g ci => fit_data ny nx fy fx sc msk g = inr (fd_of ny nx fy fx sc msk g) /\
+                         ci = make_call nx data xyb g (fd_of ny nx fy fx sc msk g))
+            gs (res_calls r).
+Proof. exact photometry_calls. Qed.
+Print Assumptions one_fit_per_group_in_group_id_order.
+
+(* the two facts about the code's method that make the above true, for every list and key:
+   Table.group_by = stable sort whose runs are the equal-key sub-lists in input order, and
+   indexing with argsort of the keys is that stable sort *)
+Theorem table_groups_are_input_order_sublists : forall (A : Type) (key : A -> Z) (l : list A),
+  let gs := runs key (sort_by key l) in
+  concat gs = sort_by key l /\
+  StronglySorted Z.lt (map (hk key) gs) /\
+  (forall g, In g gs -> g <> [] /\ g = filter (fun x => key x =? hk key g) l) /\
+  (forall x, In x l -> In (filter (fun y => key y =? key x) l) gs).
+Proof. exact @groups_spec. Qed.
+Print Assumptions table_groups_are_input_order_sublists.
+Theorem order_by_argsort_is_stable_sort : forall (A : Type) (key : A -> Z) (l : list A) (d : A),
+  order_by (argsort (map key l)) l d = sort_by key l.
+Proof. exact @order_by_argsort. Qed.
+Print Assumptions order_by_argsort_is_stable_sort.
+
+(* ---- npixfit = number of unmasked pixels of the fit_shape window that lie on the image;
+        error cases; centre index ---- *)
+Theorem npixfit_counts_unmasked_window : forall ny nx fy fx sc msk,
+  0 < fy -> 0 < fx -> 0 <= ny -> 0 <= nx -> forall s,
+  match fit_data1 ny nx fy fx sc msk s with
+  | inr (px, cen) =>
+      NoDup px /\ px <> [] /\
+      (forall y x, In (y, x) px <-> inwin ny nx fy fx sc s y x /\ masked nx msk (y, x) = false) /\
+      match cen with
+      | Some c => nth_error px c = Some (centre sc s)
+      | None => ~ In (centre sc s) px
+      end
+  | inl ENoOverlap => forall y x, ~ inwin ny nx fy fx sc s y x
+  | inl EMasked => (exists y x, inwin ny nx fy fx sc s y x) /\
+                   forall y x, inwin ny nx fy fx sc s y x -> masked nx msk (y, x) = true
+  | inl _ => False
+  end.
+Proof. exact fit_data1_spec. Qed.
+Print Assumptions npixfit_counts_unmasked_window.
+
+(* the window starts at ceil(pos - fit_shape/2) *)
+Theorem window_origin_is_ceil : forall sc, 0 < sc -> forall c f,
+  2 * sc * (lo sc c f - 1) < 2 * c - f * sc <= 2 * sc * lo sc c f.
+Proof. exact lo_spec. Qed.
+Print Assumptions window_origin_is_ceil.
+
+(* npixfit = fy*fx exactly when the whole window is on the image and unmasked (flag 1) *)
+Theorem npixfit_full_iff_window_clean : forall ny nx fy fx sc msk,
+  0 < fy -> 0 < fx -> 0 <= ny -> 0 <= nx -> forall s px cen,
+  fit_data1 ny nx fy fx sc msk s = inr (px, cen) ->
+  Z.of_nat (length px) <= fy * fx /\
+  (Z.of_nat (length px) = fy * fx <->
+   forall y x, inbox fy fx sc s y x -> (0 <= y < ny /\ 0 <= x < nx) /\ masked nx msk (y, x) = false).
+Proof. exact npixfit_full. Qed.
+Print Assumptions npixfit_full_iff_window_clean.
+
+Theorem no_overlap_error_iff_window_off_image : forall ny nx fy fx sc,
+  0 < sc -> 0 < fy -> 0 < fx -> forall s, 0 < ny -> 0 < nx ->
+  invalid ny nx fy fx sc s = true <-> forall y x, ~ inwin ny nx fy fx sc s y x.
+Proof. exact invalid_spec. Qed.
+Print Assumptions no_overlap_error_iff_window_off_image.
+
+(* ---- flags, bit by bit ---- *)
+Theorem flags_as_documented : forall ny nx fy fx sc xyb p,
+  (0 <= flags ny nx fy fx sc xyb p < 64 /\
+   Z.testbit (flags ny nx fy fx sc xyb p) 0 = flag1 fy fx p /\
+   Z.testbit (flags ny nx fy fx sc xyb p) 1 = flag2 ny nx sc p /\
+   Z.testbit (flags ny nx fy fx sc xyb p) 2 = flag4 p /\
+   Z.testbit (flags ny nx fy fx sc xyb p) 3 = flag8 p /\
+   Z.testbit (flags ny nx fy fx sc xyb p) 4 = flag16 p /\
+   Z.testbit (flags ny nx fy fx sc xyb p) 5 = flag32 xyb p).
+Proof. exact flags_bits. Qed.
+Print Assumptions flags_as_documented.
+
+Theorem flag_bits_mean_what_is_documented : forall ny nx fy fx sc xyb p,
+  let '(x, y, f) := p_par p in
+  (flag1 fy fx p = true <-> Z.of_nat (p_npix p) < fy * fx) /\
+  (flag2 ny nx sc p = true <-> x < 0 \/ y < 0 \/ nx * sc < x \/ ny * sc < y) /\
+  (flag4 p = true <-> f <= 0) /\
+  (flag8 p = true <->
+     match fo_ierr (p_info p), fo_status (p_info p) with
+     | Some ie, _ => ~ (1 <= ie <= 4)
+     | None, Some st => st = -1 \/ st = 0
+     | None, None => False
+     end) /\
+  (flag16 p = true <-> fo_cov (p_info p) = None) /\
+  (flag32 xyb p = true <->
+     exists bx by_, xyb = Some (bx, by_) /\
+       ((exists b, bx = Some b /\ (x = s_x (p_src p) - b \/ x = s_x (p_src p) + b)) \/
+        (exists b, by_ = Some b /\ (y = s_y (p_src p) - b \/ y = s_y (p_src p) + b)))).
+Proof. exact flags_meaning. Qed.
+Print Assumptions flag_bits_mean_what_is_documented.
+
+(* ---- _make_mask (repaired code): the mask handed on = caller's mask OR non-finite data;
+        the warning is emitted iff some non-finite pixel was not already masked ---- *)
+Theorem make_mask_includes_nonfinite : forall fin mask,
+  match mask with Some m => length m = length fin | None => True end ->
+  (forall p, mask_at (fst (make_mask fin mask)) p = negb (nth p fin true) || mask_at mask p) /\
+  (snd (make_mask fin mask) = true <->
+     exists p, (p < length fin)%nat /\ nth p fin true = false /\ mask_at mask p = false).
+Proof. exact make_mask_spec. Qed.
+Print Assumptions make_mask_includes_nonfinite.
+
+(* the text at /repo HEAD (returns the caller's mask) violates it: DESIGN.md section 6, item 16 *)
+Theorem make_mask_head_refuted :
+  exists fin mask p, nth p fin true = false /\ mask_at (fst (make_mask_head fin (Some mask))) p = false.
+Proof. exact make_mask_head_loses_nonfinite. Qed.
+Print Assumptions make_mask_head_refuted.
+
+(* ---- group ids: a supplied group_id column is used as given (repaired code, fixes/C12-3);
+        with a SourceGrouper they are the single-linkage labels of [grouper_is_single_linkage];
+        otherwise every source is its own group ---- *)
+Theorem group_ids_are_supplied_or_grouper_or_id : forall ids xy,
+  (forall l, group_ids (GUser l) ids xy = Some l) /\
+  (forall t, group_ids (GSep t) ids xy = option_map (map Z.of_nat) (group_sources xy t)) /\
+  group_ids GId ids xy = Some ids.
+Proof. exact group_ids_spec. Qed.
+Print Assumptions group_ids_are_supplied_or_grouper_or_id.
+(* the text at /repo HEAD overwrites a supplied group_id column with the source ids *)
+Theorem supplied_group_id_head_refuted :
+  exists l ids xy, length l = length ids /\ group_ids_head (GUser l) ids xy <> Some l.
+Proof. exact group_ids_head_overwrites. Qed.
+Print Assumptions supplied_group_id_head_refuted.
+(* the text at /repo HEAD never sets flag 16 (the KeyError leaves the loop) *)
+Theorem flag16_head_refuted : exists p, fo_cov (p_info p) = None /\ flag16_head p = false.
+Proof. exact flag16_head_never_set. Qed.
+Print Assumptions flag16_head_refuted.
+
+(* ---- clauses that depend on the optimiser: PARTIAL (pass-through form only) ----
+   Full statements (NOT proved; tested as oracle / metamorphic relations by the harness):
+     * on a noise-free scene rendered from the PSF model, the fitter started within a pixel of
+       the truth returns the truth (exact recovery; residual image ~ 0);
+     * image * k  =>  flux_fit * k;
+     * a fixed parameter is never moved by the fitter;
+     * IterativePSFPhotometry(maxiters=1) == PSFPhotometry.
+   What is proved: IF each fitter call returns [truth id] for the sub-model named [id]
+   (resp. leaves fixed parameters at their initial value), THEN the table row of every source
+   carries exactly these values -- the bookkeeping never mixes sources up. *)
+Theorem recovery_partial :
+  forall ny nx fy fx sc msk data errbad xyb fixed nextra fitter (truth : Z -> Z * Z * Z)
+         (srcs : list src) (r : result),
+  (forall k ci, fo_par (fitter k ci) = map truth (ci_ids ci)) ->
+  Permutation (map s_id srcs) (default_ids (length srcs)) ->
+  photometry ny nx fy fx sc msk data errbad xyb fixed nextra fitter srcs = r -> res_err r = None ->
+  Forall2 (fun s row => o_src row = s /\ o_fit row = truth (s_id s)) (sort_by s_id srcs) (res_rows r).
+Proof. exact photometry_recovery. Qed.
+Print Assumptions recovery_partial.
+
+Theorem fixed_parameters_partial :
+  forall ny nx fy fx sc msk data errbad xyb fixed nextra fitter (srcs : list src) (r : result),
+  (forall k ci j v, nth_error (ci_init ci) j = Some v ->
+                    agree_fixed fixed (nth j (fo_par (fitter k ci)) (0, 0, 0)) v) ->
+  Permutation (map s_id srcs) (default_ids (length srcs)) ->
+  photometry ny nx fy fx sc msk data errbad xyb fixed nextra fitter srcs = r -> res_err r = None ->
+  Forall2 (fun s row => o_src row = s /\ agree_fixed fixed (o_fit row) (init_of s))
+          (sort_by s_id srcs) (res_rows r).
+Proof. exact photometry_fixed. Qed.
+Print Assumptions fixed_parameters_partial.
+
+(* ---------------- non-vacuity ---------------- *)
+(* four sources, ids 1..4 in input order, group ids 7,3,7,3 (interleaved); 9x9 image, 3x3
+   fit shape, one masked pixel; the fitter answers (x+id, y, 10*id) for the sub-model named id *)
+Definition ex_fitter (k : nat) (ci : callin) : fitout :=
+  mkFit (map (fun '(i, (x, y, f)) => (x + i, y, 10 * i)) (combine (ci_ids ci) (ci_init ci)))
+        (Some 1) None (Some (flat_map (fun i => [i; i; i]) (ci_ids ci))) None None.
+Definition ex_srcs : list src :=
+  [ mkSrc 1 7 16 16 5 0; mkSrc 2 3 48 48 6 0; mkSrc 3 7 24 16 7 0; mkSrc 4 3 56 0 8 0 ].
+Definition ex_mask : option (list bool) :=
+  Some (map (fun p => Nat.eqb p 20) (seq 0 81)).            (* pixel (y=2, x=2) masked *)
+Definition ex_result :=
+  photometry 9 9 3 3 8 ex_mask [] None None (false, false, false) 0 ex_fitter ex_srcs.
+
+Example ex_hypotheses : Permutation (map s_id ex_srcs) (default_ids (length ex_srcs)) /\ res_err ex_result = None.
+Proof. split; [apply Permutation_refl|vm_compute; reflexivity]. Qed.
+(* id, group_id, group_size, x_fit, flux_fit, npixfit, flags: every row carries its own source *)
+Example ex_rows :
+  map (fun row => (s_id (o_src row), s_gid (o_src row), o_gsize row, o_fit row, o_npix row, o_flags row))
+      (res_rows ex_result)
+  = [ (1, 7, 2, (17, 16, 10), 8, 1); (2, 3, 2, (50, 48, 20), 9, 0);
+      (3, 7, 2, (27, 16, 30), 8, 1); (4, 3, 2, (60, 0, 40), 6, 1) ].
+Proof. vm_compute. reflexivity. Qed.
+(* the calls: group 3 first (ids 2,4), then group 7 (ids 1,3) *)
+Example ex_calls : map ci_ids (res_calls ex_result) = [[2; 4]; [1; 3]].
+Proof. vm_compute. reflexivity. Qed.
+(* the hypothesis of recovery_partial is satisfiable (fitter answering truth id = (id, id, id)) *)
+Example ex_recovery_hypothesis : exists (fitter : nat -> callin -> fitout) (truth : Z -> Z * Z * Z),
+  forall k ci, fo_par (fitter k ci) = map truth (ci_ids ci).
+Proof.
+  exists (fun _ ci => mkFit (map (fun i => (i, i, i)) (ci_ids ci)) None None None None None),
+         (fun i => (i, i, i)). reflexivity.
+Qed.
+(* ... and so is that of fixed_parameters_partial (fitter returning the initial values) *)
+Example ex_fixed_hypothesis : exists (fitter : nat -> callin -> fitout),
+  forall k ci j v, nth_error (ci_init ci) j = Some v ->
+                   agree_fixed (true, true, false) (nth j (fo_par (fitter k ci)) (0, 0, 0)) v.
+Proof.
+  exists (fun _ ci => mkFit (ci_init ci) None None None None None). intros k ci j [[x y] f] H. cbn [fo_par].
+  rewrite (nth_of_nth_error _ _ _ (0, 0, 0) H). cbn. auto.
+Qed.
+
+(* SourceGrouper: a chain (0,0)-(2,0)-(4,0) at separation exactly 2 (ties join), one far source
+   first in the list; scaled by 8 *)
+Example ex_grouper : group_sources [(800, 0); (0, 0); (32, 0); (16, 0)] 16 = Some [1; 2; 2; 2]%nat.
+Proof. vm_compute. reflexivity. Qed.
+Example ex_grouper_interleaved :
+  group_sources [(0, 0); (400, 0); (8, 0); (408, 0); (800, 800)] 16 = Some [1; 2; 1; 2; 3]%nat.
+Proof. vm_compute. reflexivity. Qed.
+
+Example ex_make_mask :
+  make_mask [true; false; false; true] (Some [false; true; false; false])
+  = (Some [false; true; true; false], true).
+Proof. reflexivity. Qed.
+Example ex_window : fit_data1 9 9 3 3 8 ex_mask (mkSrc 1 7 16 16 5 0)
+  = inr ([(1, 1); (1, 2); (1, 3); (2, 1); (2, 3); (3, 1); (3, 2); (3, 3)], None).
+Proof. vm_compute. reflexivity. Qed.
